@@ -7,7 +7,7 @@
 (* function of the state (`Step'), so it can also be run to completion     *)
 (* inside one expression (`Run') for the metamorphic properties.           *)
 (***************************************************************************)
-EXTENDS RuleWigm, RuleScotland, RuleMpls, RuleCfer, RuleMeek, RuleQpq, Json
+EXTENDS RuleWigm, RuleScotland, RuleMpls, RuleCfer, RuleMeek, RuleQpq, Pairs, Json
 
 CONSTANTS
   CONFIGS,     \* set of [rule, kind, p, g, intq, batch, omega10] records to explore
@@ -107,6 +107,27 @@ DevNeutral == Done /\ s.devs # {} =>
 Terminates == (s.pc # "setup") ~> Done
 (* the count never takes more steps than a generous structural bound (guards RunFrom's fuel) *)
 Bounded == s.pc # "setup" => Len(s.hist) <= 400
+
+(* ---------- metamorphic lemmas at design level: the count as a function of the election ---------- *)
+Meta(name, h2, map, diff) == diff = {} \/ (PrintT("METAFAIL " \o ToJson([lemma |-> name, h |-> s.h, h2 |-> h2, map |-> map, diff |-> diff])) /\ FALSE)
+Ident == [c \in 1 .. NC |-> c]
+(* C07(e): when no tie is logged the record does not depend on the tie-break order *)
+TieIndependent == Done /\ ~HasTie(TraceOf(s)) =>
+                    \A t2 \in AllPerms : LET h2 == [s.h EXCEPT !.tie = t2] IN Meta("C07e", h2, Ident, SameHistory(TraceOf(s), TraceOf(Run(h2)), TRUE))
+(* C11(a): renumbering the candidates (names, tie order, ballots carried along) gives the same winners and final tallies *)
+PermHeader(h, pi) ==
+  [h EXCEPT !.wd = [c \in 1 .. h.nc |-> h.wd[CHOOSE x \in 1 .. h.nc : pi[x] = c]],
+            !.und = [c \in 1 .. h.nc |-> h.und[CHOOSE x \in 1 .. h.nc : pi[x] = c]],
+            !.tie = [c \in 1 .. h.nc |-> h.tie[CHOOSE x \in 1 .. h.nc : pi[x] = c]],
+            !.lines = [j \in DOMAIN h.lines |-> [m |-> h.lines[j].m, r |-> [i \in DOMAIN h.lines[j].r |-> pi[h.lines[j].r[i]]]]]]
+Neutral == Done => \A pi \in AllPerms : LET h2 == PermHeader(s.h, pi) IN Meta("C11a", h2, pi, FinalDiff(TraceOf(s), TraceOf(Run(h2)), pi))
+(* C10: reversing the ballot lines and splitting every multiplier m > 1 into 1 + (m-1) changes nothing but the ballot table *)
+RECURSIVE SplitLines(_, _)
+SplitLines(L, j) == IF j = 0 THEN <<>>
+                    ELSE (IF L[j].m > 1 THEN <<[m |-> 1, r |-> L[j].r], [m |-> L[j].m - 1, r |-> L[j].r]>> ELSE <<L[j]>>) \o SplitLines(L, j - 1)
+PresentationIndependent ==
+  Done => LET h2 == [s.h EXCEPT !.lines = SplitLines(s.h.lines, Len(s.h.lines))] IN
+          Meta("C10", h2, Ident, SameHistory(TraceOf(s), TraceOf(Run(h2)), FALSE))
 
 (* export of finished counts for the spec -> code replay (harness/replay.py) *)
 Hash(st) == (Len(st.hist) * 7 + st.h.n * 13 + Sum([j \in 1 .. Len(st.h.lines) |-> Key(st.h.lines[j].r) * (j + 1) * st.h.lines[j].m]) + st.h.seats * 3)
